@@ -131,6 +131,38 @@ def constants_of(path, names, cls=None):
     return seen
 
 
+def child_batch_size(path):
+    """the size at which ItemSession.add_url commits its batch: the method must have exactly one statement of the shape
+         if len(self._add_url_batch) >= <int>:  <add_many(self._add_url_batch)>; <self._add_url_batch.clear()>
+    and no other use of a numeric threshold; anything else is Unsupported"""
+    tree = ast.parse(open(path).read(), path)
+    cls = [n for n in tree.body if isinstance(n, ast.ClassDef) and n.name == 'ItemSession']
+    if len(cls) != 1:
+        raise Unsupported('%s: class ItemSession not found' % path)
+    fn = [n for n in cls[0].body if isinstance(n, ast.FunctionDef) and n.name == 'add_url']
+    if len(fn) != 1:
+        raise Unsupported('%s: ItemSession.add_url not found' % path)
+    ifs = [n for n in ast.walk(fn[0]) if isinstance(n, ast.If)]
+    found = []
+    for n in ifs:
+        t = n.test
+        if isinstance(t, ast.Compare) and len(t.ops) == 1 and isinstance(t.ops[0], ast.GtE) and \
+                isinstance(t.left, ast.Call) and isinstance(t.left.func, ast.Name) and t.left.func.id == 'len' and \
+                len(t.left.args) == 1 and ast.dump(t.left.args[0]) == ast.dump(ast.parse('self._add_url_batch', mode='eval').body) and \
+                isinstance(t.comparators[0], ast.Constant) and isinstance(t.comparators[0].value, int) and \
+                not isinstance(t.comparators[0].value, bool) and not n.orelse:
+            calls = [ast.dump(x.value.func) for x in n.body if isinstance(x, ast.Expr) and isinstance(x.value, ast.Call)]
+            want_clear = ast.dump(ast.parse('self._add_url_batch.clear', mode='eval').body)
+            if len(n.body) == 2 and len(calls) == 2 and calls[1] == want_clear and 'add_many' in calls[0]:
+                found.append(t.comparators[0].value)
+                continue
+        if any(isinstance(x, ast.Call) and isinstance(x.func, ast.Name) and x.func.id == 'len' for x in ast.walk(t)):
+            raise Unsupported('%s:%d: a size test of another shape in ItemSession.add_url' % (path, n.lineno))
+    if len(found) != 1 or not (1 <= found[0] <= 10 ** 6):
+        raise Unsupported('%s: ItemSession.add_url: expected exactly one batch-size test, found %r' % (path, found))
+    return found[0]
+
+
 # --------------------------------------------------------------------------
 def _codes(v, what):
     """a set of characters / bytes as a sorted list of code points"""
@@ -158,7 +190,8 @@ def _str(s):
 
 
 HEADER = '''(* GENERATED by harness/translate/consts.py from the working tree of wpull - do not edit.
-   Sources: wpull/url.py, wpull/protocol/http/stream.py, wpull/processor/web.py, wpull/protocol/http/redirect.py *)
+   Sources: wpull/url.py, wpull/protocol/http/stream.py, wpull/processor/web.py, wpull/protocol/http/redirect.py,
+   wpull/pipeline/session.py *)
 From Coq Require Import List NArith ZArith.
 Import ListNotations.
 Open Scope N_scope.
@@ -187,6 +220,7 @@ def render(repo):
         if not (isinstance(v, list) and all(isinstance(x, int) for x in v)):
             raise Unsupported('%s is not a tuple of int' % name)
         lines.append('Definition gen_%s : list Z := %s.' % (name, _zlist(v)))
+    lines.append('Definition gen_child_batch_size : N := %d.' % child_batch_size(J('pipeline', 'session.py')))
     return '\n'.join(lines) + '\n'
 
 
